@@ -41,7 +41,8 @@ def case(col, kind, keys, diag, rng, T=40, iface="dict"):
     key = jax.random.PRNGKey(0)
     ks = k.init_state(key, ms)
     ep = EpochConfig(EpochType.SLOW_ADAPTATION, T, 1, None).to_state(1, 0)
-    out = k._tune_slow(key, ks, ms, ep, hist)
+    # through the PUBLIC dispatcher tune(); a single-key kernel gets a history holding just its own key (an engine tracking nothing else)
+    out = k.tune(key, ks, ms, ep, {kk: hist[kk] for kk in keys} if len(keys) == 1 else hist)
     got = np.asarray(out.kernel_state.inverse_mass_matrix)
     # the flat coordinates the matrix scales: the kernel's OWN position (whatever object the interface returns for it) flattened as blackjax does, per draw
     flat = np.asarray([np.asarray(ravel_pytree(k.position(mk_state({kk: hist[kk][t] for kk in SHAPES})))[0]) for t in range(T)], dtype=np.float64)
@@ -75,12 +76,13 @@ def offset_case(col, kind, diag, rng, T=60):
 
 
 def engine_case(col, kind, keys, diag, seed):
-    """two slow-adaptation epochs through the real engine with a second kernel on other keys"""
+    """two slow-adaptation epochs (after a fast and a burn-in epoch of the same length) through the real engine with a second kernel on other keys"""
     K = gs.NUTSKernel if kind == "NUTS" else gs.HMCKernel
     b = gs.EngineBuilder(seed=seed, num_chains=2)
     # a BURNIN epoch directly before the first slow window: its draws are not part of "that epoch's recorded history"
-    b.set_epochs([EpochConfig(EpochType.INITIAL_VALUES, 1, 1, None), EpochConfig(EpochType.BURNIN, 30, 1, None), EpochConfig(EpochType.SLOW_ADAPTATION, 30, 1, None),
-                  EpochConfig(EpochType.SLOW_ADAPTATION, 30, 1, None)])
+    # ... and a FAST epoch of the SAME length before them (whatever is compiled or cached for one epoch must not be replayed for another)
+    b.set_epochs([EpochConfig(EpochType.INITIAL_VALUES, 1, 1, None), EpochConfig(EpochType.FAST_ADAPTATION, 30, 1, None), EpochConfig(EpochType.BURNIN, 30, 1, None),
+                  EpochConfig(EpochType.SLOW_ADAPTATION, 30, 1, None), EpochConfig(EpochType.SLOW_ADAPTATION, 30, 1, None)])
     sc = {k: jnp.asarray(SCALES[k], dtype=jnp.float32) for k in SHAPES}
     b.set_model(gs.DictInterface(lambda s: sum(-0.5 * jnp.sum((s[k] / sc[k]) ** 2) for k in SHAPES)))
     b.set_initial_values({k: jnp.zeros(SHAPES[k], dtype=jnp.float32) for k in SHAPES})
@@ -92,12 +94,12 @@ def engine_case(col, kind, keys, diag, seed):
     eng.sample_all_epochs()
     res = eng.get_results()
     inp = {"kernel": kind, "position_keys": list(keys), "diagonal": diag, "engine": True}
-    for e in (2, 3):
+    for e in (3, 4):
         pos = res.positions.get_specific_chain(e).get().unwrap()
         own = {kk: np.asarray(pos[kk]) for kk in keys}
         nxt = res.kernel_states.unwrap().get_specific_chain(e).get().unwrap()[0].inverse_mass_matrix
         # the matrix in force after tuning of epoch e: read it from the engine's final states / next epoch's first state
-        after = np.asarray(eng._kernel_states[0].inverse_mass_matrix) if e == 3 else np.asarray(res.kernel_states.unwrap().get_specific_chain(3).get().unwrap()[0].inverse_mass_matrix)[:, 0]
+        after = np.asarray(eng._kernel_states[0].inverse_mass_matrix) if e == 4 else np.asarray(res.kernel_states.unwrap().get_specific_chain(4).get().unwrap()[0].inverse_mass_matrix)[:, 0]
         for c in range(2):
             flat = np.asarray(jax.vmap(lambda p: ravel_pytree(p)[0])({kk: jnp.asarray(own[kk][c]) for kk in keys}), dtype=np.float64)
             want = np.var(flat, axis=0, ddof=1) + 0.001 if diag else np.atleast_2d(np.cov(flat, rowvar=False)) + 0.001 * np.eye(flat.shape[1])
@@ -139,10 +141,10 @@ def bounded(tier, seed):
             n += 1
     return {
         "evaluations": col.evals, "distinct_nontrivial": n,
-        "rule": (f"BOUNDED: real NUTSKernel/HMCKernel._tune_slow on seeded random histories (40 draws) for {len(key_sets)} position-key tuples (non-alphabetical orders, "
+        "rule": (f"BOUNDED: real NUTSKernel/HMCKernel.tune (public dispatcher, SLOW_ADAPTATION epoch; single-key kernels with a history of just that key) on seeded random histories (40 draws) for {len(key_sets)} position-key tuples (non-alphabetical orders, "
                  "scalar / vector / (2,3)-matrix / length-1 parameters with very different scales, foreign keys present in the history), diagonal and dense mode; a history with mean 1000 and sd 0.1 (float32 cancellation); "
                  "expected = var(ddof=1)+0.001 / cov+0.001*I of the kernel's own position (kernel.position(state), DictInterface; NamedTupleInterface and DataclassInterface for two key tuples) flattened with ravel_pytree per draw. one real engine run (thorough: two, and all key permutations) with "
-                 f"two slow-adaptation epochs and a co-existing RW kernel: the matrix in force after each epoch is computed from that epoch's own stored history. seed={seed}"),
+                 f"a fast, a burn-in and two slow-adaptation epochs of equal length and a co-existing RW kernel: the matrix in force after each epoch is computed from that epoch's own stored history. seed={seed}"),
         "samples": [{"kernel": "NUTS", "position_keys": ["b", "a"], "diagonal": True}, {"kernel": "HMC", "position_keys": ["c", "W", "b"], "diagonal": False}],
         "exhaustive": False, "violations": col.violations,
     }
